@@ -134,6 +134,34 @@ CHECKS["C02"] = dict(
     technique="TLA+ liveness models of the parse loops and walks + fault-catalogue contract, TLC enumeration, watched-process replay, trace validation",
 )
 
+CHECKS["C12"] = dict(
+    text="Chunking.tla states chunk coverage as a queue discipline: Emit(chunk) is enabled iff the chunk's units are exactly the next "
+         "k >= 1 unconsumed units of the document, its index is the number of chunks so far, its id is fresh, its page range lies "
+         "within the pages of its units and its path is the enclosing heading chain; Finish requires everything consumed and every "
+         "total = n. The implementation-shaped layer models the chunkPage walk with Go slice semantics; the pop-by-length "
+         "section-path algorithm and the shared-slice variant of the pinned code are refuted by TLC (StackIsChain, PathsTrue). TLC "
+         "enumerates documents over a 9-letter element alphabet with page breaks; each is materialised as a model.Document and "
+         "chunked by rag.ChunkDocument(+WithConfig, all presets) and the layout-based rag.Chunker; Doc/Emit/Finish events incl. "
+         "larger random documents are validated by ChunkingTrace.tla.",
+    design_ref="4.12",
+    note=TB + " Chunk texts are compared after deleting white space; the layout chunker is only given documents its input can represent (headings, paragraphs, lists).",
+    technique="TLA+ queue-discipline contract + implementation-shaped walk with refuted variants, TLC enumeration, model-document replay, trace validation",
+)
+
+CHECKS["C13"] = dict(
+    text="Splitter.tla: texts as sequences of characters (1-4 bytes, letter/space/newline/sentence end); contract on the pieces as byte "
+         "ranges (increasing, on character boundaries, non-white characters conserved, size bound only under the statement's "
+         "precondition); the implementation-shaped split loop (SplitToSize / FindSplitPointAt and the sentence/word searches) with "
+         "Termination and Progress, whose raw-offset and uncapped variants TLC refutes. Overlap.tla: the prefix is a suffix of the "
+         "previous chunk's own content, valid UTF-8, within the configured bounds (variants taking it from overlapped text, "
+         "truncating at the head, ignoring MinOverlap are refuted). Exhaustive small texts x limits x five units, profile-generated "
+         "long texts and overlap configurations go through SplitToSize, the chunkers and the overlap generator; every call is one "
+         "trace event judged by SplitterTrace.tla / OverlapTrace.tla.",
+    design_ref="4.13",
+    note=TB + " Word/sentence/paragraph limits are converted by documented rough estimates and are not size-bounded; soft maxima not covered.",
+    technique="TLA+ split-loop model with liveness + overlap contract, TLC enumeration, trace validation of every real call",
+)
+
 CHECKS["C14"] = dict(
     text="Csv.tla is the RFC 4180 reader automaton (states FS/UQ/QD/QQ/CRP/ERR) with the lemma Read(Write(rows)) = rows checked by TLC "
          "and a refuted writer that does not double quotes; Export.tla gives Records(format, config, chunks) for JSON, JSONL, CSV, TSV "
